@@ -29,4 +29,13 @@ def build(tier):
                                   "cminx.documentation_types.*.process", "cminx.rstwriter.RSTWriter.__init__ (heading_level_chars)"],
                          symbolic="kind of the second command (12), both documented flags, custom header characters, title",
                          bound="two command units per file; three pages rendered per path"))
+    # C17.d hash seed: set iteration order inside the cminx modules is chosen by the harness (hc.VSet); the exclude patterns reach the
+    # matcher in the same order under both order models
+    import importlib
+    C16 = importlib.import_module('C16')
+    for extra in ((), ('-r', '-p', 'P')):
+        o = C16.ob('input', 'exclude_filters', 'exclseed', 2 if quick else 3, 300 if quick else 1800, extra=extra)
+        o.name = o.name.replace('C16 exclseed', 'C17.d hash seed (set iteration order model): order of the exclude patterns handed to the matcher')
+        o.symbolic += "; the iteration order of every set/frozenset built inside the cminx modules (insertion order in one run, reversed in the other)"
+        obs.append(o)
     return dict(obligations=obs, explanation="x", assumptions=[])
